@@ -154,8 +154,20 @@ def copula_cases(col):
             want = -0.5 * np.log(1 - rho**2) - (rho**2 * (a**2 + b**2) - 2 * rho * a * b) / (2 * (1 - rho**2))
             col.add(None if np.allclose(got, want, rtol=5e-3, atol=5e-3) else
                     {"sig": "native::copula::density", "what": f"log-density {got.round(4).tolist()} vs closed form {want.round(4).tolist()}", "input": inp})
-    d = GaussianCopula(jnp.asarray([[-0.3, 0.2], [0.5, 0.0]]), validate_args=True)
-    col.add(None if np.asarray(d.log_prob(jnp.asarray([0.3, 0.6]))).shape == (2, 2) else {"sig": "native::copula::batch", "what": "matrix batch of dependences: wrong batch shape", "input": {}})
+    # batches of dependences (1, 2 and 3 batch axes, non-symmetric, non-square): every batch member against the closed form
+    u0 = np.array([0.3, 0.6])
+    a, b = norm.ppf(u0[0]), norm.ppf(u0[1])
+    for rho in (np.array([-0.3, 0.2, 0.5]), np.array([[-0.3, 0.2], [0.5, 0.8]]), np.array([[0.1, 0.5, -0.7], [-0.3, 0.8, 0.0]]), np.arange(-3, 5).reshape(2, 2, 2) / 10.0):
+        for validate in (False, True):
+            inp = {"dependence": rho.tolist(), "validate_args": validate}
+            try:
+                got = np.asarray(GaussianCopula(jnp.asarray(rho, jnp.float32), validate_args=validate).log_prob(jnp.asarray(u0, jnp.float32)))
+            except Exception as e:
+                col.add({"sig": "native::copula::raises", "what": f"batch of dependences of shape {rho.shape} raised {type(e).__name__}: {str(e)[:100]}", "input": inp})
+                continue
+            want = -0.5 * np.log(1 - rho**2) - (rho**2 * (a**2 + b**2) - 2 * rho * a * b) / (2 * (1 - rho**2))
+            col.add(None if got.shape == rho.shape and np.allclose(got, want, rtol=5e-3, atol=5e-3) else
+                    {"sig": "native::copula::batch", "what": f"batch of dependences: log-density {np.round(got, 4).tolist()} vs closed form per member {np.round(want, 4).tolist()}", "input": inp})
 
 
 def bounded(tier, seed):
@@ -170,7 +182,7 @@ def bounded(tier, seed):
     return {
         "evaluations": col.evals, "distinct_nontrivial": col.evals,
         "rule": (f"BOUNDED: {n} seeded degenerate-MVN cases (dim 1-4, rank 0..dim, variance in {{0.37,1,5}}) x 7 constructor variants against an eigendecomposition "
-                 "reference incl. null-space invariance; RW1 penalty with eigenvalues scaled by 1e7 / 1e-7 and supplied rank; a (2,2) batch; algebraic sigmoid on a 9-point grid and in the tails (|x| up to 9999, |y| up to 0.9999, closed-form float64 reference, eager and jit) "
+                 "reference incl. null-space invariance; RW1 penalty with eigenvalues scaled by 1e7 / 1e-7 and supplied rank; a (2,2) batch; Gaussian copula also for batches of dependences with 1-3 batch axes (non-symmetric, non-square); algebraic sigmoid on a 9-point grid and in the tails (|x| up to 9999, |y| up to 0.9999, closed-form float64 reference, eager and jit) "
                  "(inverse, |forward| <= 1, ldj = log of jax.grad); Gaussian copula on 7 dependences in (-1,1) x 5 points x validate_args in {False, True} against the closed form, "
                  f"plus a matrix batch. Sampling-distribution clauses are not checked (not applicable to this family). seed={seed}"),
         "samples": [{"dim": 4, "rank": 2, "var": 0.37}, {"dependence": -0.5, "validate_args": True}],
